@@ -489,6 +489,38 @@ def corpus(rng):
     return cs
 
 
+def long_corridors(R):
+    """structures with thousands of states (a corridor 0 -> 1 -> ... -> n-1 with a self loop at the end, the end labelled p, the
+    rest q): "for every Kripke structure" includes LONG ones - an answer is still a set of K's states (here known in closed
+    form: every state satisfies E F p, A F p, E G true, E(q U p), A F G p), not an internal error such as RecursionError from a
+    helper that recurses along paths.  The model (unary numbers) is not run at this size."""
+    import pyModelChecking.CTL as CTL, pyModelChecking.LTL as LTL, pyModelChecking.CTLS as CTLS
+    from pyModelChecking.kripke import Kripke
+    n_bad = 0
+    for n, name in ((1500, lambda i: i), (2600, lambda i: 's%d' % i), (1200, lambda i: ('c', i))):
+        R_ = [(name(i), name(i + 1)) for i in range(n - 1)] + [(name(n - 1), name(n - 1))]
+        L_ = {name(i): {'q'} for i in range(n - 1)}
+        L_[name(n - 1)] = {'p'}
+        K = Kripke(R=R_, L=L_)
+        everything = set(K.states())
+        qs = [('CTL', CTL, 'E F p'), ('CTL', CTL, 'A F p'), ('CTL', CTL, 'E G true'), ('CTL', CTL, 'E (q U p)'),
+              ('CTL', CTL, 'not A G q'), ('LTL', LTL, 'A F p'), ('CTLS', CTLS, 'A F G p')]
+        if n > 2000:
+            qs = qs[:5]
+        for lg, M, text in qs:
+            R.evaluations += 1
+            r = call(lambda: M.modelcheck(K, text))
+            if r[0] != 'ok' or not isinstance(r[1], set) or r[1] != everything:
+                n_bad += 1
+                R.violation('C19: on a corridor of %d states %s.modelcheck(K, %r) %s' %
+                            (n, lg, text, ('raised ' + str(r[1])) if r[0] != 'ok' else 'is not the set of all states (%d elements)' % len(r[1])),
+                            {'stream': 'long corridors', 'n_states': n, 'state_kind': repr(name(0)), 'logic': lg, 'formula_text': text,
+                             'impl': r if r[0] != 'ok' else ['ok', len(r[1])]})
+            else:
+                R.nontriv(('corridor', n, lg, text))
+    R.cov['long_corridors'] = {'sizes': [1500, 2600, 1200], 'differences': n_bad}
+
+
 def run(R):
     lo, hi = 30, 60
     R.rule = ('(typed structure, query, caller mutation): 1-5 states drawn from a value family (str incl. empty / operator-like / '
@@ -504,6 +536,7 @@ def run(R):
               % (lo, hi))
     rng = R.rng
     depth_probe(R)
+    long_corridors(R)
     cases = corpus(rng)
     n_rand, n_deep = (20000, 450) if R.thorough else (700, 36)
     for _ in range(n_rand):
@@ -562,6 +595,11 @@ def run(R):
 
 
 def replay(R, data):
+    if data['data'].get('stream') == 'long corridors':
+        n0 = len(R.violations)
+        long_corridors(R)
+        print('long corridors re-run: %d violation(s)' % (len(R.violations) - n0))
+        return
     case = data['data']['case']
     obs, cs, K, num = run_case(case)
     exps = [exp_of(o) for o in model_batch(cs)]
